@@ -292,6 +292,26 @@ def run(ctx, replay=None):
         t['steps'].append({'a': 'Commit', 'args': [], 'post': None})
     traces.append(t)
 
+    # 5f. a transaction that fails AFTER its state transition has begun (value transfer without funds: the nonce is bumped,
+    #     then CanTransfer fails and the whole tx is rolled back) right behind state-changing valid transactions of the
+    #     SAME sender in the same block: the rollback must give back exactly its own changes - the earlier transactions'
+    #     effects (kv nonce bump, which lives only in the journal until Commit; deployments; counter) must reach the
+    #     committed state, the twin chain without the invalid tx must have the same AppHash, and nothing replays
+    def kvt(a, n, v):
+        return {'c': 'kv', 'a': a, 'n': n, 'k': 'k1', 'v': v}
+    t = {'id': 'rollback-behind-valid', 'cfg': {'accts': [1, 2], 'keys': ['k1'], 'maxn': 2, 'mode': 'model'}, 'init': None, 'steps': []}
+    for blk in ([(kvt(1, 0, 'a'), 'valid'), (tx('value', 1, 1), 'invalid'), (tx('xfer', 2, 0), 'valid'), (tx('value', 2, 1), 'invalid')],
+                [(kvt(1, 0, 'a'), 'invalid'), (tx('create', 1, 1), 'valid'), (tx('value', 1, 2), 'invalid'), (tx('xfer', 2, 0), 'invalid'),
+                 (tx('call', 2, 1), 'valid'), (tx('value', 2, 2), 'invalid'), (kvt(2, 2, 'b'), 'valid'), (tx('value', 2, 3), 'invalid')],
+                [(tx('create', 1, 1), 'invalid'), (kvt(2, 2, 'b'), 'invalid'), (tx('call', 1, 2), 'valid'), (tx('value', 1, 3), 'invalid'),
+                 (tx('revert', 2, 3), 'valid'), (tx('value', 2, 4), 'invalid')],
+                [(tx('xfer', 1, 3), 'valid'), (tx('xfer', 2, 4), 'valid')]):
+        t['steps'].append({'a': 'Begin', 'args': [], 'post': None})
+        for a, r in blk:
+            t['steps'].append({'a': 'ExecTx', 'args': [a, r], 'post': None})
+        t['steps'].append({'a': 'Commit', 'args': [], 'post': None})
+    traces.append(t)
+
     # 5e. totality under a flood of bad signatures: at least as many unverifiable transactions as signature-checking
     #     goroutines, followed by further transactions - for 1, 2, 8 goroutines and the package default (NumCPU <= 16)
     for rt, nbad in ((1, 2), (2, 3), (8, 9), (-1, 17)):
